@@ -613,6 +613,10 @@ func defaultValue(c *schema.Column) (string, error) {
 		case *schema.BoolType, *schema.DecimalType, *schema.IntegerType, *schema.FloatType:
 			return x.V, nil
 		default:
+			// Blob literals (e.g. x'53514C697465') are not strings.
+			if isBlob(x.V) {
+				return x.V, nil
+			}
 			return sqlx.SingleQuote(x.V)
 		}
 	case *schema.RawExpr:
